@@ -25,7 +25,9 @@ impl CountMinSketch {
             return Err(TinyLFUError::InvalidCountMinWidth(ctrs));
         }
 
-        let ctrs = next_power_of_2(ctrs);
+        // at least two counters: a row stores two counters per byte, so a width
+        // of one would leave the rows empty.
+        let ctrs = next_power_of_2(ctrs).max(2);
         let hctrs = ctrs / 2;
 
         let timestamp = SystemTime::now()
